@@ -90,6 +90,14 @@ func mentionsSet(info *types.Info, e ast.Node, set map[types.Object]bool) bool {
 	return found
 }
 
+var asymmetricStdlib = map[string]bool{
+	"math.Pow": true, "math.Atan2": true, "math.Mod": true, "math.Remainder": true, "math.Copysign": true,
+	"math.Dim": true, "math.Ldexp": true, "math.Nextafter": true, "math.Log": false,
+	"strings.Contains": true, "strings.HasPrefix": true, "strings.HasSuffix": true, "strings.Index": true,
+	"strings.LastIndex": true, "strings.TrimPrefix": true, "strings.TrimSuffix": true, "strings.Split": true,
+	"strings.Count": true, "strings.Repeat": true, "strings.Compare": true, "strings.Trim": true,
+}
+
 func asymmetryWitness(c *Ctx, info *types.Info, body ast.Node, a, b types.Object) (string, token.Pos) {
 	var w string
 	var pos token.Pos
@@ -100,6 +108,18 @@ func asymmetryWitness(c *Ctx, info *types.Info, body ast.Node, a, b types.Object
 	ast.Inspect(body, func(n ast.Node) bool {
 		if w != "" {
 			return false
+		}
+		if call, ok := n.(*ast.CallExpr); ok && len(call.Args) == 2 {
+			// two-argument standard library functions that are not symmetric in their arguments
+			if cal := Callee(info, call); cal != nil && cal.Pkg() != nil && asymmetricStdlib[cal.Pkg().Path()+"."+cal.Name()] {
+				xa, xb := mentionsSet(info, call.Args[0], da), mentionsSet(info, call.Args[0], db)
+				ya, yb := mentionsSet(info, call.Args[1], da), mentionsSet(info, call.Args[1], db)
+				if (xa && !xb && yb && !ya) || (xb && !xa && ya && !yb) {
+					w = fmt.Sprintf("%s.%s, which is not symmetric in its arguments, is applied to the two operands (%s)", cal.Pkg().Name(), cal.Name(), nodeStr(c.Fset, call))
+					pos = call.Pos()
+				}
+			}
+			return true
 		}
 		be, ok := n.(*ast.BinaryExpr)
 		if !ok {
